@@ -19,10 +19,15 @@ The environment (DESIGN §6 C14, "Environment, fixed precisely"):
   order; `nameplates` answers `list`; an `error` frame may replace any answer; stored mailbox
   messages are delivered to a connection that opened the mailbox at any time, in any order, any
   number of times (duplication, reordering, replay on re-open);
-* peer: another wormhole client with a matching or non-matching code (`matchKey`): its PAKE may
-  appear at any time, its `version` only after our PAKE reached the server, its numbered /
-  dilation phases only after our `version` did and only if the keys match.  A third participant
-  is answered `crowded` by the server, i.e. an `error` frame to it — it never posts.
+* peer and third participants: the mailbox relays whatever any participant posts.  `matchKey` says
+  whether a participant holding our code exists at all.  A message is *good* when it opens under the
+  key that participant computes: such a `version` exists only after our PAKE reached the server, such
+  numbered / dilation phases only after our `version` did, and none once the client has accepted
+  somebody else's PAKE (`peerKey = some false`).  Everything else may arrive at any time: a stranger's
+  well-formed PAKE (key mismatch), a PAKE body that is unusable (`noField`: not JSON / no `pake_v1` /
+  not hex; `invalid`: an element SPAKE2 rejects, or our own reflected), and bytes under any phase —
+  `version`, numbered, `dilate-N`, unknown names — that open under no key, before or after any PAKE.
+  Bound of the explored environment: at most two messages overtake the first PAKE (Order's queue).
 -/
 namespace WV.ClientEnv
 open WV.Client
@@ -32,7 +37,8 @@ inductive Resp where
   deriving DecidableEq, Repr, Inhabited, Hashable
 
 structure Env where
-  matchKey : Bool := true          -- the peer's code equals ours
+  matchKey : Bool := true          -- a participant holding our code exists
+  peerKey : Option Bool := none    -- the PAKE the client accepted came from that participant (none: no PAKE accepted yet)
   welcomed : Bool := false         -- this connection's welcome was delivered
   singles : List Resp := []        -- answers owed on this connection, FIFO
   lists : Nat := 0                 -- `nameplates` answers owed (saturating at 2)
@@ -120,12 +126,20 @@ def enabled (s : Sys) (e : Event) : Bool :=
     frames && v.opened && new && good && pake = .good &&
       (match ph with | .pake => v.srvPake | .version => v.srvVersion | .num => v.srvNum | _ => false)
   | .message .theirs ph new good pake =>
-    frames && v.opened && pake = .good &&
+    frames && v.opened &&
       (match ph with
-       | .pake => new && good = v.matchKey
-       | .version => new && good = v.matchKey && v.srvPake
-       | .num | .dilate => good = v.matchKey && v.matchKey && v.srvVersion
-       | .other => false)
+       | .pake =>
+         new && (match pake with
+                 | .good => !good || v.matchKey      -- from the holder of our code, or a stranger's well-formed one
+                 | _ => !good)                       -- an unusable PAKE body
+       | _ =>
+         pake = .good && (ph != .version || new) &&
+         (c.o != .S0_no_pake || c.orderQ.length < 2) &&
+         (!good ||
+           (v.matchKey && v.peerKey != some false &&
+             (match ph with
+              | .version => v.srvPake
+              | _ => v.srvVersion))))
 
 /-- the same environment with an **order-preserving** server: the peer's numbered / dilation
     phases are delivered only after its `version` message (the order in which the peer submitted
@@ -229,6 +243,11 @@ def sysStep (s : Sys) (e : Event) : Sys × Outcome :=
       goodPeerMsg := (m1.goodPeerMsg || (rBefore != .S2_verified_key && c'.r = .S2_verified_key)),
       badPeerMsg := (m1.badPeerMsg || (rBefore != .S3_scared && c'.r = .S3_scared)),
       internal := (m1.internal || (match oc with | .internal _ => true | _ => false)) }
+  -- something a participant posted was found unusable in this step (it may have been stashed or queued
+  -- earlier, so the event that triggers it can be an API call): an undecryptable message reached Receive,
+  -- a PAKE without a usable `pake_v1`, or an element SPAKE2 rejected (`compute_key` left no key behind)
+  let scaredNow := (s.ctl.sk != .S3_scared && c'.sk == .S3_scared) || (rBefore != .S3_scared && c'.r == .S3_scared) ||
+    (s.ctl.sk != .S2_know_key && c'.sk == .S2_know_key && !c'.rKey)
   -- the first thing that makes the Boss start closing fixes the verdict (later causes are ignored)
   let wasOpen := s.ctl.b = .S0_empty || s.ctl.b = .S1_lonely || s.ctl.b = .S2_happy
   let nowClosing := c'.b = .S3_closing || c'.b = .S4_closed
@@ -236,12 +255,18 @@ def sysStep (s : Sys) (e : Event) : Sys × Outcome :=
       { m2 with cause := match e with
           | .welcome true => .welcomeError
           | .serverError => .serverError
-          | .message .theirs _ _ _ _ => .wrongPassword
           | .close => if s.ctl.b = .S2_happy then .happy else .lonely
           | .failInitial => .connectionError
           | .wsFail => .connectionError
-          | _ => .internalError }
+          | _ => if scaredNow then .wrongPassword else .internalError }
     else m2
+  -- … an unusable PAKE counts, for the verdict, as an undecryptable peer message
+  let m2 := if scaredNow then { m2 with badPeerMsg := true } else m2
+  -- whose PAKE the client accepted
+  let v1 := match e with
+    | .message .theirs .pake _ good pk =>
+      if !s.ctl.pakeProcessed && c'.pakeProcessed then { v1 with peerKey := some (good && pk == .good) } else v1
+    | _ => v1
   let m3 := obs.foldl (monObs s.ctl c' v1) m2
   ({ ctl := c', env := v1, mon := m3 }, oc)
 
@@ -253,9 +278,13 @@ def allEvents : List Event :=
    .welcome false, .welcome true, .claimed, .released, .closedResp, .allocated, .nameplates, .serverError,
    .message .ours .pake true true .good, .message .ours .version true true .good, .message .ours .num true true .good,
    .message .theirs .pake true true .good, .message .theirs .pake true false .good,
+   .message .theirs .pake true false .noField, .message .theirs .pake true false .invalid,
    .message .theirs .version true true .good, .message .theirs .version true false .good,
-   .message .theirs .num true true .good, .message .theirs .num false true .good,
-   .message .theirs .dilate true true .good, .message .theirs .dilate false true .good]
+   .message .theirs .num true true .good, .message .theirs .num false true .good, .message .theirs .num true false .good,
+   .message .theirs .dilate true true .good, .message .theirs .dilate false true .good, .message .theirs .dilate true false .good,
+   .message .theirs .num false false .good, .message .theirs .dilate false false .good,
+   .message .theirs .other true true .good, .message .theirs .other true false .good,
+   .message .theirs .other false true .good, .message .theirs .other false false .good]
 
 def inits : List Sys := [{ env := { matchKey := true } }, { env := { matchKey := false } }]
 
